@@ -281,5 +281,5 @@ def run(ck, F):
     # receiver); a subscription to a mirror must take snapshot and event stream in one step
     import c16
     import c13
-    for r in (c16.r16_2, c16.r16_3, c13.r13_4):
+    for r in (c16.r16_2, c16.r16_3, c16.r16_6, c13.r13_4):
         ck.run_rule(r)
